@@ -724,6 +724,7 @@ func (idx *Index) flushBucket(bucket BucketIndex, newData []byte) (types.Block, 
 			return types.Block{}, 0, fmt.Errorf("cannot open new index file %s: %w", indexPath, err)
 		}
 		if err = idx.writer.Flush(); err != nil {
+			file.Close()
 			return types.Block{}, 0, fmt.Errorf("cannot write to index file %s: %w", idx.file.Name(), err)
 		}
 		idx.file.Close()
